@@ -122,7 +122,12 @@ theorem actsOf_conseq {g : Graph} {prm : Params} {u : Nat} {a : Act} {l : Loc}
         · rename_i h1
           simp only [Option.some.injEq] at hea; subst hea
           simp only [actLoc, Option.some.injEq] at hl; subst hl
-          exact Conseq.stateUp hk' he (by simpa using h1)
+          rw [Bool.and_eq_true] at h1
+          refine Conseq.stateUp hk' he (by simpa using h1.1) ?_
+          intro hs
+          have h2 := h1.2
+          rw [hs] at h2
+          simpa using h2
         · exact absurd hea (by simp)
       · rw [List.mem_filterMap] at ha
         obtain ⟨e, he, hea⟩ := ha
@@ -370,7 +375,12 @@ theorem satIter_sound {g : Graph} {prm : Params} {src : Nat} (k : Nat) :
     ∀ {T : List Loc}, (∀ l ∈ T, Reach g prm src l) → ∀ l ∈ satIter g prm k T, Reach g prm src l := by
   induction k with
   | zero => intro T hT; exact hT
-  | succ k ih => intro T hT; exact ih (satRound_sound hT)
+  | succ k ih =>
+    intro T hT
+    simp only [satIter]
+    split
+    · exact hT
+    · exact ih (satRound_sound hT)
 
 /-- **the closure computed by the driver is sound**: whatever `reachSat` returns is `Reach`. -/
 theorem reachSat_sound (g : Graph) (prm : Params) (src : Nat) :
